@@ -20,11 +20,26 @@ def oracle(ck, case, out):
 COMPONENTS = ['tsize_range', 'csizes', 'treat_groups', 'control_groups', 'exhaustive']
 
 
+def budget_bites(ck, tier):
+  """Budget ranges whose minimum / maximum cuts through the optimistic budgets of the treatment groups
+  (so that the pruning and the two budget screens are actually exercised)."""
+  from . import search
+  out = []
+  for k in range(50 if tier == 'quick' else 800):
+    c = search.gen_case(ck.seed * 31 + 70000 + k, tier)
+    c['want_budget'] = True
+    c['want_share'] = k % 5 == 0
+    c['budget_mode'] = 'lo-bites' if k % 2 == 0 else 'hi-bites'
+    c['par']['n_designs'] = [1, 3, 10, 50][k % 4]
+    out.append(c)
+  return out
+
+
 def run(tier):
   return searchfam.run_family('C03', tier, 'props/C03.v', COMPONENTS, oracle, 120, 1500,
                               RULE + '; oracle: brute force over all 3^n assignments of the admitted geos with the '
                               'omission clause (optimistic budget of the treatment group or of an admissible sub-group)',
-                              want=('tables', 'components', 'exhaustive'),
+                              want=('tables', 'components', 'exhaustive'), extra_cases=budget_bites,
                               assumptions=['feasible = over the geos admitted to the search (documented search space)',
                                            'score tuples free of NaN (total order); cases with score ties are skipped'])
 
